@@ -189,7 +189,8 @@ def _file_job(a):
                     out.append(toks[i])
                     i += 1
                 return out, hdrs
-            if "mod_remove_duplicate_include" in mods:
+            # (sorting.cpp: mod_sort_incl_import_grouping_enabled runs dedupe_imports() on every sorted group as well)
+            if "mod_remove_duplicate_include" in mods or "mod_sort_incl_import_grouping_enabled" in mods:
                 ti, hi = strip_includes(ev["tin"])
                 to, ho = strip_includes(ev["tout"])
                 li, lo = sorted(ti) + sorted(set(hi)), sorted(to) + sorted(set(ho))
